@@ -1819,9 +1819,11 @@ impl TypeChecker {
                     );
                 }
             }
-            E::BlobAccess { .. } | E::Index { .. } => {}
+            E::BlobAccess { .. } => {}
 
-            E::Variant { .. }
+            // Only tuples can be indexed like this, and tuples are immutable.
+            E::Index { .. }
+            | E::Variant { .. }
             | E::Call { .. }
             | E::BinOp { .. }
             | E::UniOp { .. }
@@ -1839,7 +1841,7 @@ impl TypeChecker {
                     self,
                     span,
                     TypeError::Assignability,
-                    "Can only assign to variables, accesses and indexes"
+                    "Can only assign to variables and accesses"
                 );
             }
         }
